@@ -35,9 +35,11 @@ def media(ct):
 class Integration:
     """one integration with its dispatcher; register(methods) -> post(path, body, content_type)"""
 
-    def __init__(self, kind, path, status_by_error=None):
+    def __init__(self, kind, path, status_by_error=None, endpoint=''):
+        """endpoint: '' = the integration's main endpoint, '/x' = an additional endpoint added with add_endpoint (aiohttp, flask)"""
         self.kind = kind
         self.path = path
+        self.endpoint = endpoint
         kw = {}
         if status_by_error is not None and kind != 'werkzeug':
             kw['status_by_error'] = status_by_error
@@ -51,6 +53,10 @@ class Integration:
         else:
             self.rpc = iw.JsonRPC(path)
             self.dispatcher = self.rpc.dispatcher
+        if endpoint:
+            if kind == 'werkzeug':
+                raise ValueError('the werkzeug integration has no additional endpoints')
+            self.dispatcher = self.rpc.add_endpoint(endpoint)
         self._ready = False
 
     def ready(self):
@@ -67,7 +73,7 @@ class Integration:
 
     def post(self, body, content_type, path=None):
         self.ready()
-        path = path if path is not None else (self.path or '/')
+        path = path if path is not None else ((self.path or '') + self.endpoint or '/')
         headers = {} if content_type is None else {'Content-Type': content_type}
         if self.kind in ('flask', 'werkzeug'):
             try:
